@@ -62,6 +62,67 @@ pub fn emit_eval_case(p: &Prog, rng: &mut Rng, out: &mut Out, kind: &str) {
             } else { out.oracle_ok(); }
         }
     }
+    // native oracle for Dot / Matmul: an independent reference written from the NumPy rules
+    for (n, v) in nodes.iter().zip(vals.iter()) {
+        let op = n.get_operation();
+        if !matches!(op, Operation::Dot | Operation::Matmul) { continue; }
+        let deps = n.get_node_dependencies();
+        let (ta, tb, tr) = (deps[0].get_type().unwrap(), deps[1].get_type().unwrap(), n.get_type().unwrap());
+        if !ta.is_array() || !tb.is_array() { continue; }
+        if let (Outcome::Ok(rv), Outcome::Ok(av), Outcome::Ok(bv)) = (v, &vals[deps[0].get_id() as usize], &vals[deps[1].get_id() as usize]) {
+            let st = ta.get_scalar_type();
+            let w = st.size_in_bits();
+            let m = |x: u128| if w >= 128 { x } else { x & ((1u128 << w) - 1) };
+            let (a, b) = (av.to_flattened_array_u128(ta.clone()).unwrap(), bv.to_flattened_array_u128(tb.clone()).unwrap());
+            let (sa, sb) = (ta.get_shape(), tb.get_shape());
+            let got: Vec<u128> = if tr.is_scalar() { vec![m(rv.to_u128(st).unwrap())] } else { rv.to_flattened_array_u128(tr.clone()).unwrap().iter().map(|x| m(*x)).collect() };
+            let strides = |s: &[u64]| -> Vec<u64> { let mut st = vec![1u64; s.len()]; for i in (0..s.len().saturating_sub(1)).rev() { st[i] = st[i + 1] * s[i + 1]; } st };
+            let (sta, stb) = (strides(&sa), strides(&sb));
+            let k = *sa.last().unwrap();
+            let mut exp: Vec<u128> = vec![];
+            if matches!(op, Operation::Dot) {
+                // dot(a, b)[i.., j.., m] = sum_k a[i.., k] * b[j.., k, m]  (b rank 1: b[k])
+                let a_outer: u64 = sa[..sa.len() - 1].iter().product();
+                let (b_outer, b_last): (u64, u64) = if sb.len() == 1 { (1, 1) } else { (sb[..sb.len() - 2].iter().product(), *sb.last().unwrap()) };
+                for i in 0..a_outer { for j in 0..b_outer { for mm in 0..b_last {
+                    let mut acc: u128 = 0;
+                    for kk in 0..k {
+                        let ai = (i * k + kk) as usize;
+                        let bi = if sb.len() == 1 { kk as usize } else { (j * k * b_last + kk * b_last + mm) as usize };
+                        acc = acc.wrapping_add(a[ai].wrapping_mul(b[bi]));
+                    }
+                    exp.push(m(acc));
+                } } }
+            } else {
+                // matmul with NumPy batch broadcasting; rank-1 operands get a unit dimension
+                let (mut xa, mut xb) = (sa.clone(), sb.clone());
+                if xa.len() == 1 { xa.insert(0, 1); }
+                if xb.len() == 1 { xb.push(1); }
+                let (ra, rb) = (xa.len(), xb.len());
+                let (n_, kk_, m_) = (xa[ra - 2], xa[ra - 1], xb[rb - 1]);
+                let (ba, bb) = (xa[..ra - 2].to_vec(), xb[..rb - 2].to_vec());
+                let rank = std::cmp::max(ba.len(), bb.len());
+                let pad = |v: &Vec<u64>| -> Vec<u64> { let mut r = vec![1u64; rank - v.len()]; r.extend(v.iter()); r };
+                let (pa, pb) = (pad(&ba), pad(&bb));
+                let batch: Vec<u64> = pa.iter().zip(pb.iter()).map(|(x, y)| std::cmp::max(*x, *y)).collect();
+                let nb: u64 = batch.iter().product();
+                let _ = (&sta, &stb);
+                for bi in 0..nb {
+                    // decode batch index
+                    let mut idx = vec![0u64; rank]; let mut r = bi;
+                    for d in (0..rank).rev() { idx[d] = r % batch[d]; r /= batch[d]; }
+                    let off = |p: &Vec<u64>| -> u64 { let mut o = 0u64; for d in 0..rank { o = o * p[d] + if p[d] == 1 { 0 } else { idx[d] }; } o };
+                    let (oa, ob) = (off(&pa) * n_ * kk_, off(&pb) * kk_ * m_);
+                    for i in 0..n_ { for j in 0..m_ {
+                        let mut acc: u128 = 0;
+                        for q in 0..kk_ { acc = acc.wrapping_add(a[(oa + i * kk_ + q) as usize].wrapping_mul(b[(ob + q * m_ + j) as usize])); }
+                        exp.push(m(acc));
+                    } }
+                }
+            }
+            if got != exp { out.violation(&format!("{}-differs-from-numpy-reference", op_name(&op)), json!({"op": op_name(&op), "a": format!("{}", ta), "b": format!("{}", tb), "ops": ops}), format!("got {:?} expected {:?}", &got[..std::cmp::min(6, got.len())], &exp[..std::cmp::min(6, exp.len())])); } else { out.oracle_ok(); }
+        }
+    }
     if tag == "Panic" {
         out.violation("evaluate-node-panics", json!({"ops": ops, "input_types": p.input_types.iter().map(|t| format!("{}", t)).collect::<Vec<_>>()}), "SimpleEvaluator panicked on a graph the builder accepted".into());
     }
